@@ -118,6 +118,11 @@ mod utils;
 mod value;
 
 fn raw_to_parse_error(map: &CodeMap, err: Error, unicode: bool) -> Box<Error> {
+    // failing to read or decode an imported file is not a located parse error
+    if !err.is_raw() {
+        return Box::new(err);
+    }
+
     let (message, span) = err.raw();
     Box::new(Error::from_loc(message, map.look_up_span(span), unicode))
 }
